@@ -1,0 +1,26 @@
+//! Off-by-default instrumentation for the /verif runtime monitors (cargo feature `verif-hooks`).
+//!
+//! Everything here only *exposes* crate-private pure functions or read-only snapshots; nothing
+//! changes control flow, yields, sleeps or panics.
+use ntex_bytes::BytesMut;
+use ntex_codec::Decoder;
+
+use crate::error::DecodeError;
+use crate::version::{ProtocolVersion, VersionCodec};
+
+/// The crate-private topic-filter validator used by the SUBSCRIBE/UNSUBSCRIBE paths.
+pub fn topic_is_valid(filter: &str) -> bool {
+    crate::topic::is_valid(filter)
+}
+
+/// Run the protocol-version sniffing codec used by the combined server on `src`.
+///
+/// `Ok(Some(4))` = MQTT 3.1.1, `Ok(Some(5))` = MQTT 5, `Ok(None)` = need more bytes.
+pub fn sniff_version(src: &mut BytesMut) -> Result<Option<u8>, DecodeError> {
+    VersionCodec.decode(src).map(|v| {
+        v.map(|v| match v {
+            ProtocolVersion::MQTT3 => 4,
+            ProtocolVersion::MQTT5 => 5,
+        })
+    })
+}
